@@ -219,8 +219,12 @@ def gen_random(rng):
             continue
         elif r < 0.88:
             hist.append(("isrun", rng.randrange(nh)))
+        elif r < 0.92:
+            hist.append(("q", rng.randrange(nh), rng.choice(["create_time", "name", "ppid", "status", "cpu_times"])))
         elif r < 0.94:
-            hist.append(("q", rng.randrange(nh), rng.choice(["create_time", "name", "ppid", "status"])))
+            # a oneshot() block opened on the object (and left open while the table moves on), or closed again: is_running()
+            # asked inside the block is about the process, not about what the block remembers
+            hist.append((rng.choice(["osenter", "osenter", "osexit"]), rng.randrange(nh)))
         else:
             hist.append(("cmp",))
     hist.append(("cmp",))
@@ -237,7 +241,7 @@ def setup():
     return _env
 
 
-FOREIGN_OPS = {"spawn", "exit", "reap", "vanish", "new", "isrun", "q", "iter", "step", "boot", "clear", "wait", "cmp", "visit", "pids", "sys"}
+FOREIGN_OPS = {"spawn", "exit", "reap", "vanish", "new", "isrun", "q", "iter", "step", "boot", "clear", "wait", "cmp", "visit", "pids", "sys", "osenter", "osexit"}
 
 
 def foreign_variant(hist, rng):
@@ -291,7 +295,9 @@ def run_history(hist, acc, prime=True, foreign=False, blame=True):
     def apply(op_):
         if op_[0] == "step":
             stepped_yet[0] = True
-        if not (other_threads and stepped_yet[0]) or op_[0] in ("step", "spawn", "exit", "reap", "vanish", "epoch0", "thread", "fault"):
+        if not (other_threads and stepped_yet[0]) or op_[0] in ("step", "spawn", "exit", "reap", "vanish", "epoch0", "thread", "fault", "osenter", "osexit"):
+            # (a oneshot() block belongs to the thread that opened it - the per-object lock is held for the block: blocks are
+            # opened and closed by the main thread, questions inside them may come from any thread)
             return do(op_)
         import threading
         box = {}
@@ -311,7 +317,7 @@ def run_history(hist, acc, prime=True, foreign=False, blame=True):
     with w:
         for op in hist:
             op = tuple(op)
-            if op[0] in ("isrun", "q", "sig", "wait"):
+            if op[0] in ("isrun", "q", "sig", "wait", "osenter", "osexit"):
                 hi = op[1]
                 if hi == -1:
                     hi = len(w.handles) - 1
@@ -345,6 +351,10 @@ def run_history(hist, acc, prime=True, foreign=False, blame=True):
                 step_ticks.append(w.tick)
             if op[0] == "spawn":
                 reuse_ticks.setdefault(op[1], []).append(w.tick)
+            if op[0] == "osenter":
+                acc.count("oneshot_blocks_opened_in_histories")
+            if op[0] == "isrun" and op[1] in w.open_cms:
+                acc.count("is_running_checked_inside_an_open_oneshot_block")
             if op[0] == "isrun":
                 acc.count("is_running_checked")
                 h = w.handles[op[1]]
@@ -443,7 +453,11 @@ def fresh_histories():
                 [("new", PID), ("step", -3600), ("visit", "proc"), ("new", PID), ("isrun", 0)],
                 [("visit", "boot"), ("new", PID), ("step", 86400), ("visit", "pidex"), ("visit", "boot"), ("new", PID), ("isrun", 0)],
                 [("iter", "keep"), ("step", 7), ("visit", "proc"), ("iter", "keep"), ("isrun", 0)],
-                [("step", 5), ("step", -5), ("new", PID), ("boot",), ("step", 9), ("boot",), ("new", PID)]):
+                [("step", 5), ("step", -5), ("new", PID), ("boot",), ("step", 9), ("boot",), ("new", PID)],
+                # an open oneshot() block remembers the records it read; is_running() inside it is about the process
+                [("new", PID), ("osenter", 0), ("isrun", 0), ("vanish", PID), ("isrun", 0), ("osexit", 0), ("isrun", 0)],
+                [("new", PID), ("osenter", 0), ("q", 0, "cpu_times"), ("exit", PID), ("isrun", 0), ("reap", PID), ("isrun", 0)],
+                [("new", PID), ("osenter", 0), ("q", 0, "name"), ("vanish", PID), ("spawn", PID, False), ("isrun", 0), ("new", PID), ("cmp",)]):
         out.append(pre + mid + [("cmp",)])
     # a machine whose clock starts at the epoch (no RTC) and is set later (NTP): the boot time first seen is 0
     for mid in ([("new", PID), ("step", 1_700_000_000), ("new", PID), ("isrun", 0)],
